@@ -116,6 +116,17 @@ class GeoInterp:
         return self.op('Position', '__sub__', p, q)
 
     # ---------------------------------------------------------------- eval
+    def _iterable(self, v):
+        """an enum class iterates over its members in definition order"""
+        if v[0] == 'K':
+            try:
+                en = self.index.enum(v[1])
+            except Exception:       # noqa: BLE001 - not an enum
+                return v
+            return ('U', tuple(('O', m) if v[1] == 'Orientation' else ('E', v[1], m)
+                               for m in en.members))
+        return v
+
     def eval(self, e: ast.AST, env: Dict[str, Any], module: Optional[Module] = None,
              depth: int = 5):
         module = module or self.gmod
@@ -167,7 +178,7 @@ class GeoInterp:
         if isinstance(e, (ast.ListComp, ast.GeneratorExp)) and len(e.generators) == 1 \
                 and not e.generators[0].is_async:
             g = e.generators[0]
-            it = ev(g.iter)
+            it = self._iterable(ev(g.iter))
             if it[0] != 'U':
                 raise AnalysisError(f'geometry expression: comprehension over `{src(g.iter)}`')
             out = []
@@ -186,7 +197,7 @@ class GeoInterp:
                                   self.eval(e.value, env2, module, depth)))
                     return
                 g = e.generators[i]
-                it = self.eval(g.iter, env2, module, depth)
+                it = self._iterable(self.eval(g.iter, env2, module, depth))
                 if it[0] != 'U':
                     raise AnalysisError(f'geometry expression: comprehension over `{src(g.iter)}`')
                 for item in it[1]:
